@@ -9,7 +9,7 @@ Ltac Zify.zify_post_hook ::= Z.div_mod_to_equations.
 (* [received]: all bytes the transport has returned when the call ends *)
 Definition cause (cfg : config) (sc : script) (steps : list step) (received : list N) (e : cerr) : Prop :=
   match e with
-  | CCtx => exists st, In st steps /\ s_ctx st = true
+  | CCtx d => exists st, In st steps /\ s_ctx st = true /\ s_deadline st = d
   | CTimeout => exists st, In st steps /\ s_timer st = true
   | CIo SiteRead => exists st b, In st steps /\ s_rd st = RIoErr b
   | CIo SiteFlush => c_kind cfg = KSerial /\ c_flusher cfg = true /\ sc_flush_err sc = true
@@ -54,7 +54,7 @@ Proof.
   induction steps as [|st rest IH]; intros acc; [exact I|].
   cbn [loop].
   destruct (s_ctx st && (s_pick st || negb (s_timer st))) eqn:Ec.
-  { cbn [fst dcause cause]. exists st. split; [left; reflexivity|]. destruct (s_ctx st); [reflexivity|discriminate]. }
+  { cbn [fst dcause cause]. exists st. split; [left; reflexivity|]. destruct (s_ctx st); [split; reflexivity|discriminate]. }
   destruct (s_timer st) eqn:Et.
   { cbn [fst dcause cause]. exists st. split; [left; reflexivity|exact Et]. }
   set (chunk := fst (delivered (c_kind cfg) acc (s_rd st))).
